@@ -9,6 +9,8 @@ import (
 	"reflect"
 	"strconv"
 	"strings"
+
+	"golang.org/x/tools/go/ssa"
 )
 
 type recordedCall struct {
@@ -337,6 +339,33 @@ func (x *Exec) frontBuiltin(env *SpecEnv, st *State, name string, args []TV) (TV
 				if cv, ok := x.force(st, x.eval(st, st.top(), s.Chan)).(VChan); ok {
 					if (cv.Obj >= 0 && cv.Obj == want.Obj) || (cv.Id.S != "" && cv.Id.S == want.Id.S) {
 						return TV{VScalar{TTrue}, boolT}, true
+					}
+				}
+			}
+			return TV{VScalar{TFalse}, boolT}, true
+		}
+		return TV{}, false
+	case "recovers":
+		// recovers(): the function under contract has, at this point, registered a deferred function whose body
+		// calls recover() — a panic raised by the call at hand does not leave the function
+		if len(args) == 0 && len(st.frames) > 0 {
+			for _, d := range st.frames[0].defers {
+				var fn *ssa.Function
+				if cv, ok := x.force(st, d.fn).(VClosure); ok {
+					fn = cv.Fn
+				} else if f := d.call.StaticCallee(); f != nil {
+					fn = f
+				}
+				if fn == nil {
+					continue
+				}
+				for _, b := range fn.Blocks {
+					for _, in := range b.Instrs {
+						if c, ok := in.(*ssa.Call); ok {
+							if bi, ok := c.Call.Value.(*ssa.Builtin); ok && bi.Name() == "recover" {
+								return TV{VScalar{TTrue}, boolT}, true
+							}
+						}
 					}
 				}
 			}
